@@ -52,7 +52,7 @@ var zzReqHdrMenus = []zzReqHdrsAtom{
 	{list: []string{"*"}, asterisk: true},
 	{list: []string{"*", "Authorization"}, asterisk: true, auth: true},
 	{list: []string{"AUTHORIZATION", "*"}, asterisk: true, auth: true},
-	{list: []string{"X_B", "x-a"}, names: []string{"x-a", "x_b"}}, // `_` sits between 'Z' and 'a': case folding must leave it alone
+	{list: []string{"x_B", "x-a"}, names: []string{"x-a", "x_b"}}, // `_` sits between 'Z' and 'a': case folding must leave it alone
 	{list: []string{"Authorization", "x-a"}, auth: true, names: []string{"x-a"}},
 	// short names: the rendered allow-list "b,x-a" is as long as a quick-tier field line,
 	// so that "the request's line has the length / shape of the configured list" is inside the bounds
@@ -64,7 +64,7 @@ const zzShortReqHdrMenu = 6
 var zzRespHdrMenus = []zzRespHdrsAtom{
 	{},
 	{list: []string{"*"}, asterisk: true},
-	{list: []string{"X_R", "x-b"}, aceh: "x-b,x_r"},
+	{list: []string{"x_R", "x-b"}, aceh: "x-b,x_r"},
 	{list: []string{"Content-Type"}},
 	{list: []string{"x-r", "*"}, asterisk: true},
 }
